@@ -1,16 +1,17 @@
 import json, os, shutil, re, sys
 sys.path.insert(0, os.path.dirname(os.path.abspath(__file__)))
-from notes_r2 import NOTE_R2, NOTE_R3, NOTE_R4, NOTE_R5, NOTE_R6, NOTE_R7
+from notes_r2 import NOTE_R2, NOTE_R3, NOTE_R4, NOTE_R5, NOTE_R6, NOTE_R7, NOTE_R8
 out_root='/verif/seeded'
 MISSED={2:{'C02':[1,2],'C03':[2],'C04':[1],'C05':[1],'C06':[1],'C08':[1],'C09':[1],'C11':[2],'C12':[2],'C14':[1],'C15':[1],'C16':[1],'C17':[1],'C18':[1,2],'C19':[1,2],'C20':[1]},
         3:{'C01':[1],'C03':[2],'C07':[1,2],'C09':[1],'C10':[1],'C17':[2],'C18':[2],'C19':[2],'C20':[1]},
         4:{'C01':[1],'C02':[1],'C03':[2],'C06':[1,2],'C07':[2],'C08':[2],'C09':[2],'C10':[2],'C14':[1,2],'C17':[1,2],'C18':[1,2],'C20':[2]},
         5:{'C01':[1,2],'C02':[1],'C04':[1,2],'C09':[2],'C10':[2],'C13':[2],'C17':[2],'C18':[2]},
         6:{'C03':[2],'C04':[2],'C05':[2],'C06':[1],'C09':[2],'C10':[1,2],'C14':[2],'C15':[1,2],'C16':[2],'C17':[2],'C19':[1,2]},
-        7:{'C01':[1,2],'C02':[1,2],'C03':[1,2],'C06':[1,2],'C09':[1],'C12':[1],'C13':[1],'C15':[1],'C16':[2],'C17':[1]}}
+        7:{'C01':[1,2],'C02':[1,2],'C03':[1,2],'C06':[1,2],'C09':[1],'C12':[1],'C13':[1],'C15':[1],'C16':[2],'C17':[1]},
+        8:{'C04':[1],'C06':[1,2],'C07':[2],'C09':[1,2],'C10':[1],'C11':[1],'C12':[2],'C14':[2],'C17':[1],'C18':[1],'C19':[2],'C20':[2]}}
 EXIT2={(2,'C11',2),(2,'C12',2)}
 rows=[]
-for rnd, root in ((1,'/tmp/seed'),(2,'/tmp/seed2'),(3,'/tmp/seed3'),(4,'/tmp/seed4'),(5,'/tmp/seed5'),(6,'/tmp/seed6'),(7,'/tmp/seed7')):
+for rnd, root in ((1,'/tmp/seed'),(2,'/tmp/seed2'),(3,'/tmp/seed3'),(4,'/tmp/seed4'),(5,'/tmp/seed5'),(6,'/tmp/seed6'),(7,'/tmp/seed7'),(8,'/tmp/seed8')):
     for pid in ['C%02d'%i for i in range(1,21)]:
         for k in (1,2,3):
             src='%s/%s.out/m%d'%(root,pid,k)
@@ -51,6 +52,8 @@ for rnd, root in ((1,'/tmp/seed'),(2,'/tmp/seed2'),(3,'/tmp/seed3'),(4,'/tmp/see
                 meta['quick_check_exit_at_first_evaluation']={pid: first}
             elif 'first_violation_lines' in old and old.get('caught_by'):
                 pass
+            if os.path.exists(os.path.join(src,'demo.orig.py')):
+                shutil.copy(os.path.join(src,'demo.orig.py'), d)
             if os.path.exists(os.path.join(src,'patch.orig.diff')):
                 shutil.copy(os.path.join(src,'patch.orig.diff'), d)
                 meta['note']='patch.diff was re-based onto the current HEAD after later fix: commits touched the same lines (patch.orig.diff is the sub-agent\'s original)'
